@@ -46,6 +46,8 @@ TRUSTED = [
     "daemon holds (service_queriers, hostname_resolvers, retransmissions, monitors) reduced to 'held or not'",
     "harness/src/safety.rs projects events to Started(first only)/Found/Stopped/status/unregister/metrics/closed and "
     "goodbyes to SRV owner names with TTL 0 in the step in which the daemon ended",
+    "environment input of the model: which own services were announced in which step (SRV with a real TTL in a "
+    "response sent), read from the implementation's trace (model_input); probing and the registry are not modelled here",
 ]
 PARTIAL = ("Granularity is whole loop iterations: calls are issued while the daemon is between iterations and clients "
            "read their channels between iterations. Real-thread interleavings inside an iteration (a try_send between "
@@ -114,7 +116,7 @@ def rand_history(rng):
             calls.insert(rng.randrange(len(calls) + 1), "X")
             if rng.random() < 0.2:
                 calls.insert(rng.randrange(len(calls) + 1), "X")
-        steps.append("%d:%s" % (rng.choice([0, 10, 150, 1000, 3000]), ",".join(calls)))
+        steps.append("%d:%s" % (rng.choice([0, 10, 150, 1000, 1000, 3000]), ",".join(calls)))
     return "c14 " + "/".join(steps)
 
 
@@ -142,6 +144,14 @@ def fixed():
         # registered, unregistered, registered again, refused by the length limit, then shutdown
         "c14 0:%s,R%s:%s:%s/10:U%s/10:%s,L30/10:R%s:%s:%s/200:X/10:S" % (
             reg, hx(TYPES[3]), hx("inst"), hx("h.local."), hx(full("inst", TYPES[0])), reg, hx(TYPES[3]), hx("other"), hx("h.local.")),
+        # goodbyes only for services that were announced (bd59ecc): announced then shutdown; announced,
+        # unregistered and shut down in one iteration; registered again (status reset); never announced
+        "c14 0:%s/1000:/10:X/10:S" % reg,
+        "c14 0:%s/1000:S/10:U%s,X" % (reg, hx(full("inst", TYPES[0]))),
+        "c14 0:%s/1000:/10:%s,X" % (reg, reg),
+        "c14 0:%s/1000:/10:%s/3000:X" % (reg, reg),
+        "c14 0:%s,X" % reg,
+        "c14 0:%s,R%s:%s:%s/3000:/0:U%s/150:X" % (reg, hx(TYPES[1]), hx("other"), hx("g.local."), hx(full("inst", TYPES[0]))),
         # queue full: 100 accepted, then Again (shutdown included), drained, then shutdown
         "c14 0:%s,X,S/10:X,S/10:S" % ",".join(["S"] * 100),
         "c14 0:%s,X,%s/10:S" % (",".join(["G"] * 99), ",".join(["S"] * 5)),
@@ -175,6 +185,18 @@ def project(line, raw):
     if line.startswith("stress_shutdown") and raw.startswith("OK "):
         return "OK"
     return raw
+
+
+def model_input(line, raw):
+    """the model's environment input: which own services were announced in which step
+    (probing / registry timing is not part of the C14 model; observed on the wire)"""
+    if not line.startswith("c14 ") or "|an=" not in raw:
+        return line
+    ans = []
+    for rec in raw.split(" / "):
+        f = [x for x in rec.split("|") if x.startswith("an=")]
+        ans.append(f[0][3:] if f else "-")
+    return "%s an:%s" % (line, "/".join(ans))
 
 
 def nontrivial(line, result):
